@@ -517,6 +517,14 @@ class Interp:
             return OPAQUE
         if len(vals) == 1:
             return vals[0]
+        if all(isinstance(v, (Dom, Choice)) for v in vals):
+            # a helper / conditional expression that hands back one of several operands: whichever was chosen
+            opts = []
+            for v in vals:
+                for o in (v.opts if isinstance(v, Choice) else [v]):
+                    if o not in opts:
+                        opts.append(o)
+            return opts[0] if len(opts) == 1 else Choice(opts)
         if all(operands(v) is not None for v in vals):
             return PSet(dedupe([o for v in vals for o in operands(v)]))
         if all(isinstance(v, Tup) for v in vals) and len({len(v.elts) for v in vals}) == 1:
